@@ -338,6 +338,25 @@ func c03Run(t *testing.T, cfg c03Cfg, steps []c03Step) (out c03Out) {
 				ps := sched.ParkedNow()
 				if len(ps) > 0 {
 					out.Classes["flush-window-with-parked-uploads"]++
+					if len(s.Selector) >= 4 && s.Selector[0]%2 == 0 {
+						// a producer appends while the flush is still uploading: the new batch goes
+						// to the write buffer while the drained ones sit in the flush window
+						raw := c03Batch(fmt.Sprintf("b%d", nb), 1+s.Selector[1]%4, 10)
+						nb++
+						batch, err := NewRecordBatchFromBytes(raw)
+						if err != nil {
+							out.V3 = append(out.V3, "harness: "+err.Error())
+							return
+						}
+						res, err := plog.AppendBatch(ctx, batch)
+						if err != nil {
+							out.V3 = append(out.V3, "harness: append during flush window failed: "+err.Error())
+							return
+						}
+						ref.add(res.BaseOffset, 1+s.Selector[1]%4, raw)
+						out.Classes["append-during-flush-window"]++
+						out.Trace = append(out.Trace, fmt.Sprintf("append-in-window->%d", res.BaseOffset))
+					}
 					doReads(s.Selector, "flush-window")
 				}
 				gated = false
